@@ -245,7 +245,7 @@ func checkC05(c *Ctx) error {
 		o.NonFinite = false
 		conf := gen.Behaviour(r, o)
 		// every other configuration is spread over 2 or 4 files (scope, constructor and the rest of a service may sit in different files)
-		units = append(units, &probe.Unit{ID: idOf(i), Cfg: conf, Files: gen.Split(r, conf, i%3), Ops: StdOps(conf, r, true)})
+		units = append(units, &probe.Unit{ID: idOf(i), Cfg: conf, Files: gen.Split(r, conf, i%4), Ops: StdOps(conf, r, true)})
 	}
 	// a sample of the small graphs is executed as well (accepted ones only)
 	k := 0
